@@ -120,6 +120,14 @@ func (s *State) evalPrefixIncrDecr(operator token.Type, node ast.Node) object.Ob
 		log.LogVf("eval prefix %s", ast.DebugString(node))
 	}
 	nv := node.Value()
+	if reg, ok := node.(*object.Register); ok { // integer parameter or loop variable held in a register.
+		if operator == token.DECR {
+			*reg.Ptr()--
+		} else {
+			*reg.Ptr()++
+		}
+		return reg.ObjValue()
+	}
 	if nv.Type() != token.IDENT {
 		return s.NewError("can't prefix increment/decrement " + nv.DebugString())
 	}
